@@ -218,3 +218,114 @@ V('c02-twin-local-return', 'C02', 'R2.4', SESS,
   '''        return messages, await mbx.update_selected(selected)''',
   '''        merged = await mbx.update_selected(selected)
         return messages, merged''', expect='silent')
+
+# ---------------------------------------------------------------- C05
+IMAP = 'pymap/imap/__init__.py'
+SELECTCMD = 'pymap/parsing/command/select.py'
+V('c05-expunge-auth-class', 'C05', 'R5.1', SELECTCMD,
+  'class ExpungeCommand(CommandSelect):', 'class ExpungeCommand(CommandAuth):')
+V('c05-starttls-any', 'C05', 'R5.1', 'pymap/parsing/command/nonauth.py',
+  'class StartTLSCommand(CommandNoArgs, CommandNonAuth):',
+  'class StartTLSCommand(CommandNoArgs, CommandAny):',
+  edits=[('pymap/parsing/command/nonauth.py',
+          'class StartTLSCommand(CommandNoArgs, CommandNonAuth):',
+          'class StartTLSCommand(CommandNoArgs, CommandAny):'),
+         ('pymap/parsing/command/nonauth.py',
+          'from . import CommandNonAuth, CommandNoArgs',
+          'from . import CommandNonAuth, CommandNoArgs, CommandAny')])
+V('c05-no-do-move', 'C05', 'R5.1', STATE,
+  'async def do_move(self, cmd: MoveCommand)',
+  'async def _do_move(self, cmd: MoveCommand)')
+V('c05-gate-select-wrong-field', 'C05', 'R5.2', STATE,
+  'elif not self._selected and isinstance(cmd, CommandSelect):',
+  'elif not self._session and isinstance(cmd, CommandSelect):')
+V('c05-gate-nonauth-dropped', 'C05', 'R5.2', STATE,
+  '''        elif self._session and isinstance(cmd, CommandNonAuth):
+            msg = cmd.command + b': Already authenticated.'
+            return ResponseBad(cmd.tag, msg)
+''', '')
+V('c05-gate-auth-inverted', 'C05', 'R5.2', STATE,
+  'elif not self._session and isinstance(cmd, CommandAuth):',
+  'elif self._session and isinstance(cmd, CommandAuth):')
+V('c05-revert-auth-fix', 'C05', 'R5.2', IMAP,
+  '''                    if isinstance(cmd, AuthenticateCommand) \\
+                            and not state.authenticated:''',
+  '''                    if isinstance(cmd, AuthenticateCommand):''')
+V('c05-auth-guard-inverted', 'C05', 'R5.2', IMAP,
+  '''                    if isinstance(cmd, AuthenticateCommand) \\
+                            and not state.authenticated:''',
+  '''                    if isinstance(cmd, AuthenticateCommand) \\
+                            and state.authenticated:''')
+V('c05-select-clears-late', 'C05', 'R5.3', STATE,
+  '''        self._selected = None
+        mailbox, updates = await self.session.select_mailbox(
+            cmd.mailbox, cmd.readonly)
+''', '''        mailbox, updates = await self.session.select_mailbox(
+            cmd.mailbox, cmd.readonly)
+        self._selected = None
+''')
+V('c05-revert-close-fix', 'C05', 'R5.4', STATE,
+  '''        selected = self.selected
+        self._selected = None
+        if not selected.readonly:
+            await self.session.expunge_mailbox(selected)''',
+  '''        await self.session.expunge_mailbox(self.selected)
+        self._selected = None''')
+V('c05-close-unconditional-expunge', 'C05', 'R5.4', STATE,
+  '''        if not selected.readonly:
+            await self.session.expunge_mailbox(selected)''',
+  '''        await self.session.expunge_mailbox(selected)''')
+V('c05-logout-no-bye', 'C05', 'R5.5', 'pymap/exceptions.py',
+  '''        response = ResponseOk(tag, b'Logout successful.')
+        response.add_untagged(ResponseBye(b'Logging out.'))
+        return response''', '''        response = ResponseOk(tag, b'Logout successful.')
+        return response''')
+V('c05-tagged-first', 'C05', 'R5.5', 'pymap/parsing/response/__init__.py',
+  '''    async def async_write(self, writer: WriteStream) -> None:
+        for untagged in self._untagged:
+            await untagged.async_write(writer)
+        super().write(writer)''', '''    async def async_write(self, writer: WriteStream) -> None:
+        super().write(writer)
+        for untagged in self._untagged:
+            await untagged.async_write(writer)''')
+V('c05-refusal-deselects', 'C05', 'R5.6', STATE,
+  '''        elif not self._session and isinstance(cmd, CommandAuth):
+            msg''', '''        elif not self._session and isinstance(cmd, CommandAuth):
+            self._selected = None
+            msg''')
+V('c05-starttls-sets-session', 'C05', 'R5.7', STATE,
+  '''        self.auth = self.config.tls_auth
+        return ResponseOk(cmd.tag, b'Ready to handshake.'), None''',
+  '''        self.auth = self.config.tls_auth
+        self._session = None
+        return ResponseOk(cmd.tag, b'Ready to handshake.'), None''')
+# twins
+V('c05-twin-gate-reordered', 'C05', 'R5.2', STATE,
+  '''        elif self._session and isinstance(cmd, CommandNonAuth):
+            msg = cmd.command + b': Already authenticated.'
+            return ResponseBad(cmd.tag, msg)
+        elif not self._session and isinstance(cmd, CommandAuth):
+            msg = cmd.command + b': Must authenticate first.'
+            return ResponseBad(cmd.tag, msg)
+''', '''        elif not self._session and isinstance(cmd, CommandAuth):
+            msg = cmd.command + b': Must authenticate first.'
+            return ResponseBad(cmd.tag, msg)
+        elif self._session and isinstance(cmd, CommandNonAuth):
+            msg = cmd.command + b': Already authenticated.'
+            return ResponseBad(cmd.tag, msg)
+''', expect='silent')
+V('c05-twin-is-none', 'C05', 'R5.2', STATE,
+  'elif not self._selected and isinstance(cmd, CommandSelect):',
+  'elif isinstance(cmd, CommandSelect) and self._selected is None:',
+  expect='silent')
+V('c05-twin-close-finally', 'C05', 'R5.4', STATE,
+  '''        selected = self.selected
+        self._selected = None
+        if not selected.readonly:
+            await self.session.expunge_mailbox(selected)''',
+  '''        selected = self.selected
+        try:
+            if not selected.readonly:
+                await self.session.expunge_mailbox(selected)
+        finally:
+            self._selected = None''', expect='silent')
